@@ -12,6 +12,9 @@ type loop struct {
 	continuePos []int
 	breakPos    []int
 	isRangeLoop bool
+	// Number of switch statements currently being compiled inside this loop.
+	// Each one keeps its subject on the stack while its cases run.
+	switchDepth int
 }
 
 func (l *loop) end() {
